@@ -64,6 +64,9 @@ class SortedNames:
 
     # -- element-wise closures ------------------------------------------------------
     def closure_elementwise(self, term):
+        t_ = term.strip()
+        if t_.startswith("fn:") and t_[3:] in ELEMENTWISE:
+            return True         # `.map(ToString::to_string)`: the conversion itself is the mapped function
         m = re.match(r"^(.*::\{closure#\d+\})\{.*\}$", term.strip())
         path = m.group(1) if m else None
         b = self.fb.bodies.get(path) if path else None
